@@ -379,6 +379,7 @@ func main() {
 	for i := 0; i < n; i++ {
 		scs = append(scs, genScenario(base.ForkN("s", i), i))
 	}
+	sim.GetIDGenerator() // akita initialises it lazily without synchronisation; do it before going parallel
 	vlib.Parallel(len(scs), 0, func(i int) { runScenario(c, scs[i]) })
 	c.Finish(finishOpts(false))
 }
